@@ -613,10 +613,10 @@ def coverage(pm, ctx, ia, tas):
              isinstance(n.test.operand, ast.Call) and call_name(n.test.operand) == guard and
              len(n.body) == 1 and isinstance(n.body[0], ast.Return)]
     pi = path_info(sc_fld.node)
-    apps = [c for c in own_nodes(sc_fld.node) if isinstance(c, ast.Call) and
-            call_name(c) == 'append']
+    from ..model import element_sites
+    apps = [l for l in element_sites(sc_fld.node)]
     same = len(apps) == 1 and [(call_name(e) if isinstance(e, ast.Call) else unparse(e), p)
-                               for e, p in pi.at(apps[0])] == [(guard, True)]
+                               for e, p in pi.at(apps[0]['node'])] == [(guard, True)]
     ctx.check('C17-R7', bool(early) and same,
               'swift_client declares a namespace field exactly when it generates the routes class',
               sc_fld.loc, msg='SwiftBackend._namespace_fields and _generate_routes no longer use '
